@@ -161,6 +161,8 @@ Differs(a, b) ==
     \/ \E f \in DOMAIN a.fields \cap DOMAIN b.fields :
           \/ a.fields[f].kind # b.fields[f].kind
           \/ ~SameVal(a.fields[f], a.vals[f], b.vals[f])
+          \* one id (or none) is not a list of ids, whatever the list holds
+          \/ (a.fields[f].kind = "rel" /\ b.fields[f].kind = "rel" /\ a.fields[f].to1 # b.fields[f].to1)
           \* values of different Go types are different values, however they print
           \* (two nil values of different kinds are left undecided)
           \/ /\ a.fields[f].kind = "attr"
